@@ -41,6 +41,10 @@ pub struct Cfg {
     pub enum_from: Option<u64>,
     pub enum_count: u64,
     pub enum_depth: u32,
+    /// the borrower contract is the owner (operator) of the vault factory: it can change the vault's
+    /// configuration from inside its own loan callback
+    #[serde(default)]
+    pub operator_borrower: bool,
 }
 
 /// symbolic borrower behaviour, concretised against the current quote
@@ -342,7 +346,7 @@ fn obs_key(o: &Obs) -> String {
 /// loans contained in a concrete program: (vault idx, amount, nested-in-same-vault-loan)
 pub fn loans_in(s: &VaultScen, prog: &[Action], enclosing: &[usize], out: &mut Vec<(usize, u128, bool)>) {
     for a in prog {
-        if let Action::Loan { vault, amount, program } = a {
+        if let Action::Loan { vault, amount, program } | Action::LoanWithCoins { vault, amount, program, .. } = a {
             let idx = if *vault == s.vault { 0 } else { 1 };
             out.push((idx, amount.u128(), enclosing.contains(&idx)));
             let mut e = enclosing.to_vec();
@@ -361,7 +365,7 @@ pub fn loans_in(s: &VaultScen, prog: &[Action], enclosing: &[usize], out: &mut V
 fn has_action(prog: &[Action], f: &dyn Fn(&Action) -> bool) -> bool {
     prog.iter().any(|a| {
         f(a) || match a {
-            Action::Loan { program, .. } => has_action(program, f),
+            Action::Loan { program, .. } | Action::LoanWithCoins { program, .. } => has_action(program, f),
             Action::RouterLoan { payload, .. } => has_action(payload, f),
             _ => false,
         }
@@ -420,6 +424,7 @@ impl Scenario for VaultScen {
             enum_from: if enum_mode { Some((idx % runs_per_kind) * per_run) } else { None },
             enum_count: per_run,
             enum_depth: depth,
+            operator_borrower: !enum_mode && rng.chance(1, 8),
         }
     }
 
@@ -437,7 +442,8 @@ impl Scenario for VaultScen {
             }
             bals.push((u, cs));
         }
-        let mut oc = vec![coin(10u128.pow(13), "uyyy")];
+        let mut oc = vec![coin(10u128.pow(13), "uyyy"), coin(10u128.pow(30), "ujunk")];
+        oc.sort_by(|a, b| a.denom.cmp(&b.denom));
         if cfg.kind == Kind::Native {
             oc.push(coin(cfg.user_funds, "uxxx"));
         }
@@ -489,13 +495,18 @@ impl Scenario for VaultScen {
         let r = tx(&mut s.app, OWNER, m, Fault::None);
         assert!(r.outcome.is_ok(), "harness: vault1 deposit {}", r.outcome.err_text());
         let purse = cfg.user_funds / 4;
-        let mut msgs = vec![bank_send(&s.borrower, 10u128.pow(12), "uyyy")];
+        let mut msgs = vec![bank_send(&s.borrower, 10u128.pow(12), "uyyy"), bank_send(&s.borrower, 10u128.pow(29), "ujunk")];
         msgs.push(match &s.asset {
             AssetInfo::NativeToken { denom } => bank_send(&s.borrower, purse, denom),
             AssetInfo::Token { contract_addr } => wasm_exec(contract_addr, &cw20::Cw20ExecuteMsg::Transfer { recipient: s.borrower.clone(), amount: Uint128::new(purse) }, vec![]),
         });
         let r = tx(&mut s.app, OWNER, msgs, Fault::None);
         assert!(r.outcome.is_ok(), "harness: fund borrower {}", r.outcome.err_text());
+        if cfg.operator_borrower {
+            let m = wasm_exec(&s.factory, &vault_factory::ExecuteMsg::UpdateConfig { owner: Some(s.borrower.clone()), fee_collector_addr: None, vault_id: None, token_id: None }, vec![]);
+            let r = tx(&mut s.app, OWNER, vec![m], Fault::None);
+            assert!(r.outcome.is_ok(), "harness: hand the factory to the borrower {}", r.outcome.err_text());
+        }
         s
     }
 
@@ -614,7 +625,7 @@ impl Scenario for VaultScen {
                 let sent = match rng.below(10) { 0 => amount.saturating_sub(1), 1 => amount.saturating_add(1), 2 => 0, _ => amount };
                 Op::Deposit { amount, sent }
             }
-            1 if rng.chance(1, 8) => Op::WithdrawDirect { junk: rng.chance(1, 2), amount: *rng.pick(&[1u128, 1000, 1001, 999_999]) },
+            1 if rng.chance(1, 8) => Op::WithdrawDirect { junk: rng.chance(1, 2), amount: *rng.pick(&[1u128, 1000, 1001, 999_999, 2, 998, 1_000_000]) },
             1 => Op::Withdraw { lp: if ulp == 0 { rng.range128(0, 5) } else { match rng.below(4) { 0 => ulp, 1 => 1, _ => rng.edge_amount(ulp) } } },
             2 => {
                 let avail = o.bal;
@@ -627,6 +638,33 @@ impl Scenario for VaultScen {
                         Action::Pay { asset, amount: am, .. } => Action::Pay { to: self.router.clone(), asset, amount: Uint128::new(am.u128().saturating_sub(amount)) },
                         other => other,
                     }).collect()
+                } else if rng.chance(1, 8) {
+                    // coins of a foreign denom ride on the FlashLoan message itself; half of the time the
+                    // borrower then holds back as many units of the vault asset as it attached of the other
+                    let x = rng.edge_amount(amount.max(1)).max(1);
+                    let hold_back = rng.chance(1, 2);
+                    let inner: Vec<Action> = self.concretise(&sym, 0, amount).into_iter().map(|a| match a {
+                        Action::Pay { to, asset, amount: am } if hold_back && to == self.vault => Action::Pay { to, asset, amount: Uint128::new(am.u128().saturating_sub(x)) },
+                        other => other,
+                    }).collect();
+                    ctx.probe("loan_with_foreign_coins_attached");
+                    vec![Action::LoanWithCoins { vault: self.vault.clone(), amount: Uint128::new(amount), denom: "ujunk".into(), coins: Uint128::new(x), program: inner }]
+                } else if self.cfg.operator_borrower && rng.chance(1, 3) {
+                    // the operator-borrower switches loans off inside its own callback, deposits, switches
+                    // them on again, and then does whatever the drawn program does
+                    let toggle = |on: bool| Action::Exec {
+                        contract: self.factory.clone(),
+                        msg: cosmwasm_std::to_json_binary(&vault_factory::ExecuteMsg::UpdateVaultConfig {
+                            vault_addr: self.vault.clone(),
+                            params: vault::UpdateConfigParams { flash_loan_enabled: Some(on), deposit_enabled: None, withdraw_enabled: None, new_owner: None, new_vault_fees: None, new_fee_collector_addr: None },
+                        })
+                        .unwrap(),
+                    };
+                    let dep = rng.edge_amount((o.borrower / 4).max(1)).max(1);
+                    let mut inner = vec![toggle(false), Action::Deposit { vault: self.vault.clone(), asset: self.asset.clone(), amount: Uint128::new(dep) }, toggle(true)];
+                    inner.extend(self.concretise(&sym, 0, amount));
+                    ctx.probe("operator_borrower_reconfigures_inside_loan");
+                    vec![Action::Loan { vault: self.vault.clone(), amount: Uint128::new(amount), program: inner }]
                 } else {
                     vec![Action::Loan { vault: self.vault.clone(), amount: Uint128::new(amount), program: self.concretise(&sym, 0, amount) }]
                 };
@@ -783,7 +821,8 @@ pub fn apply(s: &mut VaultScen, step: &Step, ctx: &mut Ctx) {
             do_withdraw(s, ctx, actor, *lp, step.fault, "withdraw");
         }
         Op::WithdrawDirect { junk, amount } => {
-            let denom = if *junk { "ujunk" } else { "uyyy" };
+            // an unrelated coin, the other vault's asset, or (native vault, even amounts) the vault's OWN asset
+            let denom = if s.cfg.kind == Kind::Native && *amount % 2 == 0 { "uxxx" } else if *junk { "ujunk" } else { "uyyy" };
             let r = tx(&mut s.app, who, vec![wasm_exec(&s.vault, &vault::ExecuteMsg::Withdraw {}, vec![coin(*amount, denom)])], Fault::None);
             ctx.op("withdraw_direct_with_coin", r.outcome.kind());
             let Ok(after) = s.observe() else { ctx.fail("C05", "solvency", "queries_fail", None, "after direct withdraw".into()); return; };
@@ -826,6 +865,14 @@ pub fn apply(s: &mut VaultScen, step: &Step, ctx: &mut Ctx) {
                 vault_addr: s.vault.clone(),
                 params: vault::UpdateConfigParams { flash_loan_enabled: None, deposit_enabled: None, withdraw_enabled: None, new_owner: None, new_vault_fees: Some(vault_fee(fees)), new_fee_collector_addr: None },
             }, vec![]);
+            let msg = if s.cfg.operator_borrower {
+                match &msg {
+                    CosmosMsg::Wasm(cosmwasm_std::WasmMsg::Execute { contract_addr, msg: inner, .. }) => wasm_exec(&s.borrower, &vh::ExecuteMsg::Run { program: vec![Action::Exec { contract: contract_addr.clone(), msg: inner.clone() }] }, vec![]),
+                    _ => msg,
+                }
+            } else {
+                msg
+            };
             let r = tx(&mut s.app, OWNER, vec![msg], Fault::None);
             ctx.op("set_fees", r.outcome.kind());
             if r.outcome.is_ok() {
